@@ -8,6 +8,7 @@ import re
 
 from ..astutil import call_attr, calls_in, guard_facts, unparse, walk_local
 from ..cfg import CFG
+from ..dataflow import resolved_text
 from ..report import Finding, Report
 from ..srcindex import AnalysisError, Index
 
@@ -32,24 +33,67 @@ def check_size_verifiers(idx: Index, rep: Report) -> None:
     sizes = next((unparse(s.targets[0]) for s in walk_local(g.node) if isinstance(s, ast.Assign) and unparse(s.value) == "attribute.get_values()"), None)
     if sizes is None:
         raise AnalysisError(f"{g.fq}: `sizes = attribute.get_values()` not found")
-    # (a) number of entries == number of definitions
-    if re.search(rf"len\({sizes}\) != len\(defs\)", t):
+    cfg = CFG(g.node)
+    # (a) number of entries == number of definitions: a raise guarded by a comparison of the two lengths
+    def _len_cmp(t: ast.AST, pol: bool) -> bool:
+        if not (isinstance(t, ast.Compare) and len(t.ops) == 1):
+            return False
+        ne = (isinstance(t.ops[0], ast.NotEq) and pol) or (isinstance(t.ops[0], ast.Eq) and not pol)
+        sides = {resolved_text(cfg, t.left, cfg.node_of(t)), resolved_text(cfg, t.comparators[0], cfg.node_of(t))}
+        return ne and len(sides) == 2 and any(x.startswith("len(") and x.endswith(".get_values())") for x in sides) and "len(get_construct_defs(op_def, construct))" in sides
+
+    sizes_src = "attribute.get_values()"
+    raises = [n for n in walk_local(g.node) if isinstance(n, ast.Raise)]
+    if any(any(_len_cmp(t, pol) for t, pol in guard_facts(g.node, rs)) for rs in raises):
         r.ok(g.fq + ":count", f"{g.loc} one size per definition")
     else:
         r.fail(g.fq + ":count", Finding("C10.R1", g.fq, "count-not-checked", "the number of sizes is not compared with the number of definitions", g.loc))
-    # (b) kind of each entry
-    if "isinstance(d, OptionalDef) and l not in (0, 1)" in t and "not isinstance(d, VariadicDef) and l != 1" in t:
+    # (b) kind of each entry: inside the loop pairing sizes with definitions, a *feasible* raise for optional
+    # definitions with a size outside {0, 1} and one for single definitions with a size other than 1
+    loops = [w for w in walk_local(g.node) if isinstance(w, ast.For) and isinstance(w.iter, ast.Call) and call_attr(w.iter) == "zip" and len(w.iter.args) == 2]
+    sz = dn = None
+    for w in loops:
+        args = [unparse(a_) for a_ in w.iter.args]
+        if sizes in args and "defs" in args and isinstance(w.target, ast.Tuple) and len(w.target.elts) == 2:
+            si = args.index(sizes)
+            se, de = w.target.elts[si], w.target.elts[1 - si]
+            if isinstance(se, ast.Name) and isinstance(de, ast.Tuple) and len(de.elts) == 2:
+                sz, dn, kloop = se.id, unparse(de.elts[1]), w
+    if sz is None:
+        raise AnalysisError(f"{g.fq}: loop pairing each size with its definition not recognised")
+    opt_is_var = idx.is_subclass(idx.cls(OPS, "OptionalDef"), "VariadicDef")
+
+    def facts_of(rs):
+        out = {}
+        for t, pol in guard_facts(g.node, rs):
+            out[unparse(t)] = pol
+        return out
+
+    opt_ok = single_ok = False
+    for rs in [n for n in walk_local(kloop) if isinstance(n, ast.Raise)]:
+        fs = facts_of(rs)
+        is_opt = fs.get(f"isinstance({dn}, OptionalDef)")
+        is_var = fs.get(f"isinstance({dn}, VariadicDef)")
+        if is_opt is True and not (opt_is_var and is_var is False):
+            if fs.get(f"{sz} not in (0, 1)") is True or fs.get(f"{sz} in (0, 1)") is False or fs.get(f"{sz} > 1") is True:
+                opt_ok = True
+        if is_var is False and is_opt is not True:
+            if fs.get(f"{sz} != 1") is True or fs.get(f"{sz} == 1") is False:
+                single_ok = True
+    if opt_ok and single_ok:
         r.ok(g.fq + ":kind", f"{g.loc} optional -> 0/1, single -> 1")
     else:
-        r.fail(g.fq + ":kind", Finding("C10.R1", g.fq, "kind-not-checked", "sizes are not checked against the kind of each definition (optional: 0 or 1, single: 1)", g.loc))
+        missing = [k for k, v in (("optional definitions (0 or 1)", opt_ok), ("single definitions (exactly 1)", single_ok)) if not v]
+        r.fail(g.fq + ":kind", Finding("C10.R1", g.fq, "kind-not-checked", f"sizes are not checked against the kind of each definition (optional: 0 or 1, single: 1): no reachable rejection for {', '.join(missing)}" + (" — OptionalDef is a subclass of VariadicDef, so a test placed after `isinstance(d, VariadicDef)` was excluded never fires" if not opt_ok else ""), g.loc))
     # (c) the sum of the sizes equals the length of the verified list
     consumes = any(call_attr(c) == "get_op_constructs" for c in calls_in(g.node)) and re.search(rf"sum\({sizes}\)", t)
     if consumes:
         r.ok(g.fq + ":sum", f"{g.loc} sum of sizes compared with the list length")
     else:
         r.fail(g.fq + ":sum", Finding("C10.R1", g.fq, "sum-not-checked", f"verify_variadic_attr_size never compares sum({sizes}) with len(get_op_constructs(op, construct)): `operandSegmentSizes = [0, 0, 1]` over three operands verifies, and `[2, 2, 1]` fails later with IndexError in an accessor", g.loc))
-    # (d) non-negative entries
-    neg = re.search(r"\bl < 0\b|\b0 > l\b|min\(" + re.escape(sizes) + r"\) < 0|any\(\(?\w+ < 0 for", t)
+    # (d) non-negative entries: a rejection inside the pairing loop (or over the whole list) for a negative size
+    neg = any(facts_of(rs).get(f"{sz} < 0") is True or facts_of(rs).get(f"{sz} >= 0") is False or facts_of(rs).get(f"0 > {sz}") is True for rs in [n for n in walk_local(kloop) if isinstance(n, ast.Raise)])
+    neg = neg or bool(re.search(r"min\(" + re.escape(sizes) + r"\) < 0|any\(\(?\w+ < 0 for", t))
     if neg:
         r.ok(g.fq + ":sign", f"{g.loc} negative sizes rejected")
     else:
